@@ -183,6 +183,8 @@ pub fn ball_pivot_with_centers_2d(
 
     // let mut count = 0;
     loop {
+        #[cfg(feature = "verif")]
+        crate::verif::tick();
         // Get the neighborhood of points within 2x the radius
         let neighbors = tree.within(&points[working_index], search2);
 
